@@ -11,7 +11,9 @@
 //	cfg := vtraffic.DefaultConfig()            // bounds of the generated space
 //	s   := vtraffic.Gen(cfg).Draw(rt, "traffic") // *Scenario (all choices drawn from rapid)
 //	s.Conversations                            // ground truth, one entry per TCP connection / UDP flow
-//	s.Captures[i].Name, .Packets               // the i-th capture file in chronological order
+//	s.Captures[i].Name, .Packets               // the i-th capture file, ordered by first packet time; the files are
+//	                                           // either consecutive pieces of the packet sequence or (sensor layout,
+//	                                           // Scenario.Overlapping) overlap in time
 //	s.WriteCapture(dir, i)                     // writes dir/<Captures[i].Name> with pcapgo
 //	s.Truth()                                  // connection key -> *Truth (endpoints, protocol, bytes, runs)
 //	s.KeysIn(captureIndexes...)                // keys of the conversations having a packet in those captures
@@ -182,7 +184,10 @@ type Capture struct {
 type Scenario struct {
 	Conversations []*Conversation
 	Packets       []*Packet  // all packets in capture order
-	Captures      []*Capture // chronological; Captures[i].Packets are consecutive pieces of Packets
+	Captures      []*Capture // ordered by the time of their first packet; every packet is in exactly one capture, each capture is sorted by time
+	Overlapping   bool       // the time ranges of some capture files overlap (sensor layout)
+	Layout        []string   // sensor layout only: how packets were assigned to sensors (per time part)
+	Slow          bool       // about a quarter of the gaps are 1-4 minutes
 	Steered       int        // conversations moved away from a shape excluded by the Config (see Config.Avoid...)
 	SteeredCuts   int        // cut positions moved by Config.AvoidCutAfterSecondFin
 }
@@ -274,6 +279,7 @@ type Stats struct {
 	Interleaved                   int   // conversations whose packets are interleaved with another conversation's
 	DurationUS                    int64 // last - first capture time
 	MaxFlowUS                     int64 // longest conversation
+	LongTCP, LongUDP              int   // conversations lasting longer than 5 minutes
 	PayloadBytes                  int
 }
 
@@ -323,8 +329,16 @@ func (s *Scenario) Stats() Stats {
 			st.SpanningCaptures++
 		}
 		if len(c.flow) > 0 {
-			if d := c.flow[len(c.flow)-1].TimeUS - c.flow[0].TimeUS; d > st.MaxFlowUS {
+			d := c.flow[len(c.flow)-1].TimeUS - c.flow[0].TimeUS
+			if d > st.MaxFlowUS {
 				st.MaxFlowUS = d
+			}
+			if d > 5*60*1000000 {
+				if c.Proto == "TCP" {
+					st.LongTCP++
+				} else {
+					st.LongUDP++
+				}
 			}
 			// interleaved: some packet of another conversation lies strictly inside
 			if last[i]-first[i]+1 > len(c.flow) {
